@@ -60,8 +60,18 @@ func TestVerifC18API(t *testing.T) {
 	}
 	r.Expect("api:Row", "api:Rows", "api:Rows-open", "api:Row-open")
 
-	m := test.MustRunCommand()
-	defer m.Close()
+	// VERIF_ESRV_NODES=3: the same leg against a real 3-node gossip/HTTP cluster, every request through a drawn node
+	nodes := []*test.Command{}
+	if vrcNodes() > 1 {
+		cl := vrcStart(t, vrcNodes(), 1)
+		defer cl.Close()
+		nodes = cl
+	} else {
+		one := test.MustRunCommand()
+		defer one.Close()
+		nodes = append(nodes, one)
+	}
+	m := nodes[0]
 	ctx := context.Background()
 	nIdx := 0
 
@@ -103,7 +113,7 @@ func TestVerifC18API(t *testing.T) {
 			bits = append(bits, b)
 			cs.Bits = append(cs.Bits, fmt.Sprintf("Set(%d,t=%d,%s)", b.Col, b.Row, tm.Format(pilosa.TimeFormat)))
 			pq := fmt.Sprintf("Set(%d, t=%d, %s)", b.Col, b.Row, tm.Format(pilosa.TimeFormat))
-			if _, err := m.API.Query(ctx, &pilosa.QueryRequest{Index: index, Query: pq}); err != nil {
+			if _, err := nodes[rng.Intn(len(nodes))].API.Query(ctx, &pilosa.QueryRequest{Index: index, Query: pq}); err != nil {
 				r.Fail("api:set-error:"+q, id, fmt.Sprintf("%s: %v", pq, err), cs)
 				return
 			}
@@ -172,7 +182,7 @@ func TestVerifC18API(t *testing.T) {
 				}
 			}
 			cs.Query = pq
-			resp, err := m.API.Query(ctx, &pilosa.QueryRequest{Index: index, Query: pq})
+			resp, err := nodes[rng.Intn(len(nodes))].API.Query(ctx, &pilosa.QueryRequest{Index: index, Query: pq})
 			r.Eval(1)
 			r.Cover(cls)
 			sig := cls + ":" + q
